@@ -377,6 +377,9 @@ func (v *visitor) FunctionNode(node *ast.FunctionNode) reflect.Type {
 		}
 	}
 	if !v.strict {
+		for _, arg := range node.Arguments {
+			v.visit(arg)
+		}
 		if v.defaultType != nil {
 			return v.defaultType
 		}
@@ -401,6 +404,11 @@ func (v *visitor) MethodNode(node *ast.MethodNode) reflect.Type {
 // checkFunc checks func arguments and returns "return type" of func or method.
 func (v *visitor) checkFunc(fn reflect.Type, method bool, node ast.Node, name string, arguments []ast.Node) reflect.Type {
 	if isInterface(fn) {
+		// The callee is only known at run time; its arguments are part of
+		// the expression all the same and have to be checked and typed.
+		for _, arg := range arguments {
+			v.visit(arg)
+		}
 		return interfaceType
 	}
 
